@@ -104,8 +104,10 @@ pub fn run(ctx: &Ctx, ev: &mut Ev) {
                         let o = drv.run_enc(&case, ev); h_eitems(&mut h, &o.items); h.b(&o.bytes); h_calls(&mut h, &o.calls); h.u(o.fails.len() as u64);
                         ev.nontrivial_hash(case.hash()); tx.case(h.get(), || format!("{} -> {} | {}", case.describe(), fmt_calls(&o.calls), hex(&o.bytes))); }
                     2 => { let src = gen_src(&mut r, SrcKind::Bytes, if i % 50 == 0 { 30 } else { 4 }); let al = r.below(16); let b = drv.src8.carve_from(&src.bytes, al);
-                        h.u(Encoding::utf8_valid_up_to(b) as u64).u(Encoding::ascii_valid_up_to(b) as u64).u(Encoding::iso_2022_jp_ascii_valid_up_to(b) as u64).u(encoding_rs::mem::utf8_latin1_up_to(b) as u64);
-                        let u = gen_src(&mut r, SrcKind::Units, 3); let ub = drv.src16.carve_from(&u.units, al & !1); h.u(encoding_rs::mem::utf16_valid_up_to(ub) as u64);
+                        // (a panic in one build only is a difference too: it is folded into the digest instead of killing the shard)
+                        match std::panic::catch_unwind(|| [Encoding::utf8_valid_up_to(b), Encoding::ascii_valid_up_to(b), Encoding::iso_2022_jp_ascii_valid_up_to(b), encoding_rs::mem::utf8_latin1_up_to(b)]) { Ok(v) => { for x in v { h.u(x as u64); } } Err(_) => { h.u(0xDEAD_0001); } }
+                        let u = gen_src(&mut r, SrcKind::Units, 3); let ub = drv.src16.carve_from(&u.units, al & !1);
+                        match std::panic::catch_unwind(|| encoding_rs::mem::utf16_valid_up_to(ub)) { Ok(x) => { h.u(x as u64); } Err(_) => { h.u(0xDEAD_0002); } }
                         ev.api_calls += 5; ev.nontrivial_hash(H::new().b(&src.bytes).u16s(&u.units).get()); tx.case(h.get(), || format!("bytes {} units [{}]", hexs(&src.bytes), hex16(&u.units))); }
                     3 => { let f = ALL_MEM[r.below(ALL_MEM.len())]; let src = gen_src(&mut r, f.src_kind(), if i % 100 == 0 { 30 } else { 4 }); let dl = gen_dst_len(&mut r, f, src.len(f)); let (sa, da) = (r.below(16), r.below(16));
                         if expect(f, &src, dl).panics { continue; }
@@ -116,10 +118,10 @@ pub fn run(ctx: &Ctx, ev: &mut Ev) {
                         ev.nontrivial_hash(H::new().s(f.name()).b(&src.bytes).u16s(&src.units).u(dl as u64).get()); tx.case(h.get(), || format!("{} {} dst_len={} -> {:?}", f.name(), src.describe(f), dl, o.ret)); }
                     _ => { let src = gen_src(&mut r, SrcKind::Bytes, 4); let al = r.below(16); let b = drv.src8.carve_from(&src.bytes, al);
                         use encoding_rs::mem::*;
-                        h.u(is_ascii(b) as u64).u(is_utf8_latin1(b) as u64).u(is_utf8_bidi(b) as u64).u(check_utf8_for_latin1_and_bidi(b) as u64);
-                        if let Ok(s) = std::str::from_utf8(b) { h.u(is_str_latin1(s) as u64).u(is_str_bidi(s) as u64).u(check_str_for_latin1_and_bidi(s) as u64).u(str_latin1_up_to(s) as u64); }
+                        match std::panic::catch_unwind(|| [is_ascii(b) as u64, is_utf8_latin1(b) as u64, is_utf8_bidi(b) as u64, check_utf8_for_latin1_and_bidi(b) as u64]) { Ok(v) => { for x in v { h.u(x); } } Err(_) => { h.u(0xDEAD_0003); } }
+                        if let Ok(s) = std::str::from_utf8(b) { match std::panic::catch_unwind(|| [is_str_latin1(s) as u64, is_str_bidi(s) as u64, check_str_for_latin1_and_bidi(s) as u64, str_latin1_up_to(s) as u64]) { Ok(v) => { for x in v { h.u(x); } } Err(_) => { h.u(0xDEAD_0004); } } }
                         let u = gen_src(&mut r, SrcKind::Units, 3); let ub = drv.src16.carve_from(&u.units, al & !1);
-                        h.u(is_basic_latin(ub) as u64).u(is_utf16_latin1(ub) as u64).u(is_utf16_bidi(ub) as u64).u(check_utf16_for_latin1_and_bidi(ub) as u64);
+                        match std::panic::catch_unwind(|| [is_basic_latin(ub) as u64, is_utf16_latin1(ub) as u64, is_utf16_bidi(ub) as u64, check_utf16_for_latin1_and_bidi(ub) as u64]) { Ok(v) => { for x in v { h.u(x); } } Err(_) => { h.u(0xDEAD_0005); } }
                         ev.api_calls += 12; ev.nontrivial_hash(H::new().b(&src.bytes).u16s(&u.units).u(5).get()); tx.case(h.get(), || format!("bytes {} units [{}]", hexs(&src.bytes), hex16(&u.units))); }
                 }
             }
